@@ -64,6 +64,52 @@ ADVAN_SPEC = st.fixed_dictionaries(
     )
 )
 
+# flat programs about operator precedence: top-level assignments, logical IFs and one-level IF blocks whose
+# conditions mix .OR./.AND./.NOT. three levels deep without parentheses; none of the switchable (known-defect)
+# shapes is present, so no violation found here can be attributed to one of them
+_NOFEAT = {fl: False for fl in G._KNOWN_SHAPE_FLAGS}
+# relations that are true at about half of the sample points (etas are sampled symmetrically around zero), so
+# that the truth table of a mixed condition is really explored
+_BAL_REL = st.tuples(
+    st.just('rel'),
+    st.integers(4, 11),
+    st.tuples(st.just('eta'), st.integers(0, 30)),
+    st.one_of(st.tuples(st.just('n'), st.just(6)), st.tuples(st.just('eta'), st.integers(0, 30)), st.tuples(st.just('neg'), st.tuples(st.just('n'), st.just(6)))),
+)
+_LEAF_COND = st.one_of(_BAL_REL, _BAL_REL, st.tuples(st.just('not'), _BAL_REL), G.cond_strategy(0))
+
+
+def _mixed_cond(depth):
+    if depth == 0:
+        return _LEAF_COND
+    sub = _mixed_cond(depth - 1)
+    return st.one_of(_LEAF_COND, st.tuples(st.sampled_from(['and', 'or']), sub, sub), st.tuples(st.sampled_from(['and', 'or']), sub, sub), st.tuples(st.sampled_from(['and', 'or']), sub, sub))
+
+
+_LOGIC_STMT = st.one_of(
+    st.tuples(st.just('a'), st.integers(0, 20), G.expr_strategy(2)),
+    st.tuples(st.just('l'), _mixed_cond(3), st.integers(0, 20), G.expr_strategy(1)),
+    st.tuples(st.just('l'), _mixed_cond(2), st.integers(0, 20), G.expr_strategy(2)),
+    st.tuples(
+        st.just('b'),
+        st.lists(st.tuples(_mixed_cond(2), st.lists(st.tuples(st.just('a'), st.integers(0, 20), G.expr_strategy(1)), min_size=1, max_size=2)), min_size=1, max_size=3),
+        st.one_of(st.none(), st.lists(st.tuples(st.just('a'), st.integers(0, 20), G.expr_strategy(1)), min_size=1, max_size=2)),
+    ),
+)
+LOGIC_SPEC = st.fixed_dictionaries(
+    dict(
+        SPEC_COMMON,
+        kind=st.just('pred'),
+        # every user variable is assigned first, so that each conditional assignment below is observable
+        # (a variable assigned only under a condition has no defined value when the condition is false)
+        body=st.tuples(
+            st.tuples(*[st.tuples(st.just('a'), st.just(i), G.expr_strategy(1)) for i in range(len(G.USERVARS))]),
+            st.lists(_LOGIC_STMT, min_size=2, max_size=7),
+        ).map(lambda t: G._l(list(t[0]) + list(t[1]))),
+        feat=st.fixed_dictionaries(dict({k: st.just(v) for k, v in _NOFEAT.items()}, protected_edges=st.booleans(), unprotected_trig=st.just(False))),
+    )
+)
+
 ADVANS = [1, 2, 3, 4, 10, 11, 12]
 
 
@@ -949,6 +995,7 @@ def run_struct(spec):
 
 from .. import modeleval  # noqa: E402
 
+SUBCHECKS.append(SubCheck('logic', lambda: LOGIC_SPEC, run_case, quick=200, thorough=2000, quick_time=240, thorough_time=3000))
 SUBCHECKS.append(SubCheck('struct', lambda: STRUCT_SPEC, run_struct, quick=160, thorough=1660, quick_time=240, thorough_time=3000))
 
 
